@@ -11,7 +11,8 @@ _MODEL_FAULTS = [
     "fault:checkpoint:memory", "fault:checkpoint:weights_h5",
     "fault:checkpoint:weights_v3", "fault:checkpoint:weights_tf",
     "fault:checkpoint:full_h5", "fault:checkpoint:keras",
-    "fault:rebuild_from_user_code", "reach:restore_from_non_newest",
+    "fault:rebuild_from_user_code", "fault:clone_model",
+    "reach:restore_from_non_newest",
     "reach:second_hop_restore",
 ]
 
